@@ -298,9 +298,26 @@ func genExpiry(e *acc.Env, name string, ages []int64) Item {
 	}
 	st := acc.Req{Route: "status", Method: "GET", Target: "/status", Auth: e.ObserverBearer("relay:stats"), Label: "stats"}
 	ops = append(ops, acc.Op{K: "req", Req: &st})
+	// one more token with the same exp gets its code now and presents it IN THE VERY SECOND the token expires
+	// (exp <= now < exp+1): whether the listing ever shows that connection is a race, so the attempt is not an operation
+	// of the model - but at exp + 2 s it has to be gone like the others
+	{
+		b := acc.SessionBearer(e.Cfg.Host, now.Unix(), topic, "bxl-"+name, []string{"read", "write"})
+		b.Claims["exp"] = exp
+		b.Label = "joins-in-its-last-second"
+		q := acc.Req{Route: "session", ID: topic, Auth: b, Label: "expiry"}
+		q.Method, q.Target = acc.TargetFor("session", topic, nil, nil)
+		sIdx := len(ops)
+		ops = append(ops, acc.Op{K: "req", Req: &q})
+		ua := len(ages) + 1
+		ops = append(ops, acc.Op{K: "wait", T: exp*1000 + 120})
+		ops = append(ops, acc.Op{K: "ws", Ws: &acc.Ws{Path: "/session/" + topic, Decoded: "/session/" + topic, Code: acc.CodeRef{Kind: "op", Op: sIdx}, UA: ua,
+			Label: "joins-in-its-last-second", Unmodelled: true}})
+		it.Attempt[strconv.Itoa(ua)] = "joins-in-its-last-second"
+	}
 	ops = append(ops, acc.Op{K: "wait", T: exp*1000 + 2000})
 	ops = append(ops, acc.Op{K: "timers"})
-	for i := range ages {
+	for i := 0; i <= len(ages); i++ {
 		ops = append(ops, acc.Op{K: "serverclose", UA: i + 1})
 	}
 	ops = append(ops, acc.Op{K: "req", Req: &st})
@@ -339,6 +356,8 @@ var plans = []plan{
 	{"none", "none", "right"}, {"random", "random", "right"}, {"refused-sessions-code", "bad", "right"},
 	{"longer-path", "a", "extra"}, {"longer-path-escaped", "a", "escaped-extra"}, {"prefix-Session", "a", "upper-prefix"},
 	{"prefix-shell", "a", "shell"}, {"no-topic", "a", "no-topic"}, {"alias-after-space", "a", "alias-space"},
+	{"respelt-upper", "respell:upper", "right"}, {"respelt-braces", "respell:braces", "right"}, {"respelt-urn", "respell:urn", "right"},
+	{"respelt-nohyphen", "respell:nohyphen", "right"},
 }
 
 func wsPath(kind, a, b string) (escaped, decoded string) {
@@ -443,6 +462,9 @@ func genRelay(r *lib.Rng, n int, e *acc.Env, force int) Item {
 			ref = acc.CodeRef{Kind: "op", Op: 0}
 		case "bad":
 			ref = acc.CodeRef{Kind: "op", Op: 4}
+		}
+		if strings.HasPrefix(p.code, "respell:") {
+			ref = acc.CodeRef{Kind: "respell", Op: 2, How: strings.TrimPrefix(p.code, "respell:")}
 		}
 		ua := 3 + i
 		hs := acc.UpgradeHeaderSets()
@@ -781,6 +803,24 @@ func work(a lib.Args) {
 				n++
 			}
 		}
+		// which private claims the token names x where the clock stands in its window, on POST /session/{id}
+		for _, cs := range acc.ClaimShapes() {
+			for _, w := range acc.Windows() {
+				r := rng.Fork()
+				it := genSession(r, n, mocks)
+				e := mocks[it.H.Cfg.AE]
+				topic := "some-topic"
+				base := acc.SessionBearer(e.Cfg.Host, it.H.T0, topic, "bk-"+it.H.Name, []string{"read", "write"})
+				x := acc.Req{Route: "session", ID: topic, Label: "good", Auth: acc.Shaped(base, cs, w, it.H.T0)}
+				x.Method, x.Target = acc.TargetFor("session", topic, nil, nil)
+				adm := acc.ScopeBearer(e.Cfg.Host, it.H.T0, []string{"relay:admin"})
+				la := acc.Req{Route: "listallow", Method: "GET", Target: "/bids/allow", Auth: adm}
+				it.H.Ops = []acc.Op{{K: "req", Req: &la}, {K: "req", Req: &x}, {K: "req", Req: &la}}
+				it.X, it.Denied, it.DenBid = 1, false, ""
+				items = append(items, it)
+				n++
+			}
+		}
 		// the configuration dimension of the secret: instances whose secret contains commas, leading / trailing
 		// commas, spaces, is very long or not ASCII; bearers signed with the exact string (good), with each
 		// comma-separated part, the trimmed string, the EMPTY key, a prefix
@@ -794,6 +834,22 @@ func work(a lib.Args) {
 		}
 		for i := 0; i < a.Pick(45, 600); i++ {
 			items = append(items, genRelay(rng.Fork(), n, real, -1))
+			n++
+		}
+		// an issued code RE-SPELT (upper case, braces, urn:uuid:, without hyphens): presented twice, then the code as
+		// issued (must still work), then the other spelling once more
+		for _, how := range []string{"upper", "braces", "urn", "nohyphen", "upper-braces"} {
+			it := genRelay(rng.Fork(), n, real, -1)
+			ops := it.H.Ops[:7]
+			for k, u := range []struct{ kind, label string }{{"respell", "respelt-" + how}, {"respell", "respelt-" + how}, {"op", "right"}, {"respell", "respelt-" + how}} {
+				ref := acc.CodeRef{Kind: u.kind, Op: 2, How: how}
+				w := *ops[5].Ws
+				w.Code, w.UA, w.Label, w.Headers = ref, 3+k, u.label, nil
+				ops = append(ops, acc.Op{K: "ws", Ws: &w})
+			}
+			it.H.Ops = ops
+			it.Attempt = map[string]string{"1": "peer", "2": "control", "3": "respelt-" + how, "4": "respelt-" + how, "5": "right", "6": "respelt-" + how}
+			items = append(items, it)
 			n++
 		}
 		// every prefix claim that is not "session" (shell, other case, other word, trailing space, empty) with
